@@ -198,9 +198,11 @@ class ClassContainer(ContainerInterface):
             step: The step reference number
         """
         self.step = step
-        for obj in self:
-            if obj.status < step:
-                self.process_class(obj, step)
+        # Processors may add new classes, repeat until all are processed
+        while any(obj.status < step for obj in self):
+            for obj in self:
+                if obj.status < step:
+                    self.process_class(obj, step)
 
     def process_class(self, target: Class, step: int) -> None:
         """Run the step processors for the given class.
